@@ -442,7 +442,7 @@ def fault_strategy(base_bytes):
 def tasks(tier, seed):
     t = []
     bases = QUICK_BASES if tier == "quick" else fixtures.SUPPORTED
-    per = 320 if tier == "quick" else 700
+    per = 320 if tier == "quick" else 500
     for b in bases:
         t.append(("faults", {"base": b, "n": per, "seed": derive_seed(seed, "c17", b)}))
         nparts = 2 if tier == "quick" else 4
